@@ -21,6 +21,30 @@ CLAIMED = {
         note="Trusted: rustc MIR, Vec/HashMap/Iterator::rev semantics. An Err exit counts as an ordinary exit because failed elements are retried.",
         technique="static analysis: MIR typestate pairing (push_element/pop_element incl. inspect_err idiom), who-may-write on context fields, CFG ordering (no set_var -> eval_attr path)",
     ),
+    "C01": dict(
+        text="Decides, over everything reachable from the public entry points: every panic-capable site (MIR asserts, unwrap/expect, explicit panics, Index impls, split_at/remove/clamp/random_range/RefCell borrows and every external callee documented to panic) is discharged by a guard rule (path-sensitive Option/Result state, dominating length tests, find/position-derived offsets, argument-precondition tests, structural 64-bit counters) or by a reviewed table line counted per (function, kind, callee); every recursive SCC has a verified bound (depth guard dominating the in-SCC calls, nesting counter inherited by new evaluator states, visited set, variant change, resolved target) or a reviewed data-structural reason; every loop is driven by a finite iterator or has a verified progress witness (scanner must-consume summaries with stable cursor predicates, strictly shrinking suffix, counters, limit counter, length exit, visited set, external reader). Does not decide time complexity, memory exhaustion or the wasm front-end.",
+        design_ref="DESIGN.md section 4 C01",
+        note="Trusted: rustc MIR; documented std panic conditions; \"\".parse::<f32>() fails; finite input gives a finite event stream; reviewed table policy/tables/panic_allow.json (64 sites) and the not-a-transform-path list (server start-up, static assets).",
+        technique="static analysis: call-graph reachability with CHA and generic-callback edges, MIR panic-site inventory with dominance / path-sensitive guard discharge (A2), SCC witnesses (A3), natural-loop progress witnesses incl. an abstract suffix domain and must-call summaries (A4)",
+    ),
+    "C02": dict(
+        text="Decides the escaping discipline behind well-formed output: every quick-xml constructor site is classified by its resolved constructor; raw attribute sinks must be fed by an unconditional & < \" escaper, the raw CDATA sink by the ]]> splitter, the raw text conversion must be unreachable for Text events in write_to; reader and writer agree on the escape level per channel; `class` can never be written twice and AttrMap::insert never duplicates a key; the root gets xmlns/version unless the author's root has that very key, and an empty-element root is closed. Does not decide that quick-xml's writer itself emits well-formed bytes or value-level escaping for every string.",
+        design_ref="DESIGN.md section 4 C02",
+        note="Trusted: quick-xml constructor semantics as documented. Known findings: F13 comments, F15-residual unknown entities, F18 foreign xmlns, F19 real-SVG root without version (conflict with C03), F20 input ending inside open elements.",
+        technique="static analysis: resolved-constructor sink classification with value-origin slices to escaper summaries (A11), dominance/must-pass on root synthesis (A13), literal-key scan (A14), who-may-write (A10)",
+    ),
+    "C03": dict(
+        text="Decides the mechanisms of pass-through: the real-SVG edge of process_events (top level only) and of postprocess reach nothing but conversion and write_to; real_svg is written only there; nested namespaced <svg> (both tag forms) returns its raw input events before any evaluation; is_real_svg skips non-element events; reader/writer escape levels agree per channel; attribute order is normalised by a stable sort only. Normalisations applied on the pass-through path are enumerated as findings. Infoset equality itself (two executions) is not decided.",
+        design_ref="DESIGN.md section 4 C03",
+        note="Trusted: quick-xml reader/writer inverse on passed-through Event kinds. Known findings: F15-residual, F23 class-list normalisation, F24 trailing blanks trimmed.",
+        technique="static analysis: MIR dominance / region reachability on bypass edges (A13), who-may-write (A10), reader-side payload classification vs writer-side sinks (A11)",
+    ),
+    "C05": dict(
+        text="Decides the mechanisms that make T(x) a fixed point: escape balance and sink discipline (shared with C02/C03); the generated root satisfies the reader's real-SVG predicate (same namespace literal, inserted unless present) and the second pass's bypass edges reach only conversion and write_to under every configuration; the writer's normalisations are idempotent (stable attribute sort, blank-line removal once on the coalesced text inside write_to only, class list cannot hold duplicates). Byte equality of T(T(x)) and T(x) is not decided.",
+        design_ref="DESIGN.md section 4 C05",
+        note="Trusted: as C02/C03. Known findings: F13 comments, F18 foreign xmlns.",
+        technique="static analysis: shared A11/A13/A16 rules of C02/C03 plus who-may-call/who-may-write on the writer's normalisers",
+    ),
     "C06": dict(
         text="Decides the absence of order- and environment-dependent constructs: every iteration (or Debug rendering) of a HashMap/HashSet is followed to an order-insensitive consumer or a reviewed table line; clock/env/pid/unseeded-RNG calls occur only under use_local_styles and the randomised id is reset whenever local styles are off; the single Pcg32 is seeded from config.seed, reseeded only by set_config and consumed only by random()/randint(); output is merged through a BTreeMap<OrderIndex,_>. This is the whole mechanism behind the property; cross-platform floating point is outside the statement.",
         design_ref="DESIGN.md section 4 C06",
@@ -44,11 +68,7 @@ CLAIMED = {
 NOT_APPLICABLE = {
     pid: RULE_NOT_BUILT + why
     for pid, why in {
-        "C01": "planned: panic-site inventory with guard discharge, recursion witnesses, loop progress",
-        "C02": "planned: XML sink discipline / escape balance",
-        "C03": "planned: bypass dominance, escape balance; infoset equality itself is a two-execution comparison no static rule decides",
         "C04": "planned: pass-through filter; acceptance of the SVG grammars is a language-inclusion question, not a shape property",
-        "C05": "planned: escape balance + sibling predicates; T(T(x))=T(x) itself compares two executions",
         "C08": "planned: guarded root inserts; the extent value is numeric",
         "C09": "selection-table wiring only would be decidable; placement arithmetic is numeric",
         "C10": "planned: unknown-ref -> error, registration discipline; permutation invariance is a value statement",
